@@ -319,6 +319,10 @@ class TransferFrameDataField:
         if tfdf.should_have_fhp_or_lvp_field(
             truncated=truncated, frame_type=frame_type
         ):
+            # The data field, as passed and as declared, has to hold the 3 byte header with the
+            # FHP or LVOP field
+            if len(raw_tfdf) < 3 or exact_len < 3:
+                raise UslpInvalidRawPacketOrFrameLen
             tfdf.fhp_or_lvop = (raw_tfdf[1] << 8) | raw_tfdf[2]
             tfdz_start = 3
         else:
